@@ -28,8 +28,10 @@ TraceStep ==
        IF row.ev.k = "TraceReset"
        THEN store' = Fresh /\ last' = NoLast
        ELSE LET r == Apply(store[row.sid], row.ev) IN
-            /\ \/ (row.ret.seen = r.ret.seen /\ row.ret.err = r.ret.err /\ row.post = Post(r.st))
-               \/ PrintT(<<"MISMATCH", l, row.tr, row.i, r.ret, Post(r.st)>>)
+               \* (IF, not \/: inside an action TLC explores both disjuncts)
+            /\ IF row.ret.seen = r.ret.seen /\ row.ret.err = r.ret.err /\ row.post = Post(r.st)
+               THEN TRUE
+               ELSE PrintT(<<"MISMATCH", l, row.tr, row.i, r.ret, Post(r.st)>>)
             /\ store' = [store EXCEPT ![row.sid] = r.st]
             /\ last' = [sid |-> row.sid, ev |-> row.ev, ret |-> r.ret]
 
